@@ -135,7 +135,7 @@ def rule_1(ctx):
 
             def factory():
                 env, rec = make_env()
-                it = Interp(ctx.a, m, env, self_class=self_class)
+                it = Interp(ctx.a, m, env, self_class=self_class, scope_fn=fnode)
                 if not isinstance(owner, ast.Name):
                     # owner like stack[-1]: substitute structurally
                     orig_ev = it.ev
@@ -165,7 +165,7 @@ def rule_1(ctx):
             ctx.expect(excluded, site, construct,
                        f'{desc} is reachable for a string-literal operand: a syntactic decision depends '
                        f'on the characters of a text literal (e.g. =A1&": "&B1, =":x")')
-    ctx.floor(20, 'inspections of token text in parser/tokenizer/operand node/XLFormula')
+    ctx.floor(12, 'inspections of token text in parser/tokenizer/operand node/XLFormula')
 
 
 def _roles(ctx):
@@ -387,9 +387,28 @@ def rule_3(ctx):
         got = out.value.label if isinstance(out.value, Opaque) else str(out.end)
         ctx.expect(f'.{cls}' in got, ev, f'OperandNode.eval({sub})',
                    f'a {sub} literal evaluates through {got}, expected the {cls} type')
-    err_arm = [n for n in walk_local(ev) if isinstance(n, ast.If) and const_compares(n.test, 'tsubtype', consts['TOK_SUBTYPE_ERROR'])]
-    ok = bool(err_arm) and any(isinstance(x, ast.Attribute) and x.attr == 'ERRORS_BY_CODE' for x in ast.walk(err_arm[0]))
-    ctx.expect(ok, ev, 'OperandNode.eval(error)', 'error literals are not materialised through ERRORS_BY_CODE')
+    xm = ctx.mod('xlfunctions.xlerrors')
+    by_code = {}
+    for qual, cnode in xm.classes.items():
+        decs = [ctx.res.resolve(d if not isinstance(d, ast.Call) else d.func, xm) for d in cnode.decorator_list]
+        if 'pkg:xlfunctions.xlerrors:register' in decs:
+            cm_, val_ = ctx.res.class_attr(f'pkg:xlfunctions.xlerrors:{qual}', 'value')
+            try:
+                by_code[ctx.fold(val_, cm_)] = Ref(f'pkg:xlfunctions.xlerrors:{qual}')
+            except (Unfoldable, AttributeError):
+                pass
+    wrong = []
+    for code in list(by_code) + ['#FOO!']:
+        it = Interp(ctx.a, am, {'self': Rec(tsubtype=consts['TOK_SUBTYPE_ERROR'], tvalue=code, ttype=O), 'context': Rec(ref='r'),
+                                'xlerrors': Rec(ERRORS_BY_CODE=dict(by_code), ExcelError=Ref('pkg:xlfunctions.xlerrors:ExcelError'))},
+                    scope_fn=ev)
+        out = it.run(ev.body)
+        want = by_code.get(code, Ref('pkg:xlfunctions.xlerrors:ExcelError')).ref
+        got = out.value.get('cls') if isinstance(out.value, Rec) and 'cls' in out.value.f else f'{out.end} {out.value!r}'
+        if got != want:
+            wrong.append((code, got))
+    ctx.expect(not wrong and len(by_code) == 7, ev, 'OperandNode.eval(error)',
+               f'error literals are not materialised as the error class registered for their code: {wrong[:3]}')
     # the tokenizer assigns every operand subtype somewhere
     tm = ctx.mod('tokenizer')
     gt = tm.func('ExcelParser.getTokens')
